@@ -1,3 +1,4 @@
 import Ymq.Props.C03
 #print axioms Ymq.C03.factor_total
 #print axioms Ymq.C03.factorImpl_total
+#print axioms Ymq.C03.factor_total_of_input
